@@ -49,7 +49,7 @@ class VecVal:
     def __init__(self, items=()): self.items = list(items)
     def __repr__(self): return f"Vec{self.items}"
 class SVec(VecVal):   # SmallVec model (sequence; capacity asserted by the model)
-    __slots__ = ()
+    __slots__ = ('cap',)
 class VS(VecVal):     # VecSet model: sorted duplicate-free list
     __slots__ = ()
 class HM:             # HashMap / VecMap model: association list [[k, v]], insertion order
